@@ -67,6 +67,7 @@ func c11run(p c11plan, seed int64) c11obs {
 	var faultHit int32
 	// server -> client byte accounting for peerclose / earlyreply
 	var srvWritten int64
+	var halfClosed int32
 	var replyBytes int64 // total bytes of the first reply frame, for earlyreply
 
 	var frngMu sync.Mutex
@@ -132,7 +133,7 @@ func c11run(p c11plan, seed int64) c11obs {
 		defer close(srvDone)
 		hdr := make([]byte, 28)
 		write := func(frame []byte) bool {
-			if p.Kind == "peerclose" {
+			if p.Kind == "peerclose" || p.Kind == "peerhalfclose" {
 				budget := int64(p.At) - atomic.LoadInt64(&srvWritten)
 				if budget <= int64(len(frame)) {
 					if budget > 0 {
@@ -140,9 +141,19 @@ func c11run(p c11plan, seed int64) c11obs {
 						atomic.AddInt64(&srvWritten, budget)
 					}
 					atomic.StoreInt32(&faultHit, 1)
+					if p.Kind == "peerhalfclose" {
+						// shut the write side only: the client reads EOF (possibly mid-message) while
+						// its own writes are still accepted and silently drained, like a TCP half-close
+						b.CloseWrite()
+						atomic.StoreInt32(&halfClosed, 1)
+						return true
+					}
 					b.Close()
 					return false
 				}
+			}
+			if atomic.LoadInt32(&halfClosed) == 1 {
+				return true // keep draining, never answer
 			}
 			if _, err := b.Write(frame); err != nil {
 				return false
@@ -303,6 +314,7 @@ func c11(c *wk.Ctx) {
 		}
 		for j := 0; j <= out; j += step {
 			plans = append(plans, c11plan{K: cf.K, Frag: cf.Frag, Kind: "peerclose", At: j})
+			plans = append(plans, c11plan{K: cf.K, Frag: cf.Frag, Kind: "peerhalfclose", At: j})
 		}
 		if c.Thorough() {
 			for at := 0; at < n; at += 2 {
